@@ -18,6 +18,7 @@
 #include "oomd/include/CgroupPath.h"
 
 #include <optional>
+#include <unordered_set>
 
 #include "oomd/util/Fs.h"
 #include "oomd/util/Util.h"
@@ -101,7 +102,13 @@ std::vector<CgroupPath> CgroupPath::resolveWildcard() const {
   if (!glob) {
     return ret;
   }
+  // Overlapping brace alternatives ("{a,a*}") make glob(3) return a directory
+  // once per alternative that matches it; a cgroup is resolved once
+  std::unordered_set<std::string> seen;
   for (const auto& path : *glob) {
+    if (!seen.insert(path).second) {
+      continue;
+    }
     if (path.find(cgroup_fs_) == 0) {
       if (path.size() == cgroup_fs_.size()) {
         ret.emplace_back(cgroup_fs_, "");
